@@ -1147,11 +1147,28 @@ impl<'a> Exec<'a> {
                 .iter()
                 .filter(|r| r.seq >= lo && r.seq < hi)
                 .filter(|r| {
-                    (r.kind == OpKind::AtomicWrite && s.paths[r.path as usize] == Path::new("meta.json")) || r.kind == OpKind::SyncDir
+                    // the commit point: meta.json replacement, directory syncs, and the alive-bitset
+                    // (.del) files written by purge_deletes / the end_merge reconciliation
+                    (r.kind == OpKind::AtomicWrite && s.paths[r.path as usize] == Path::new("meta.json"))
+                        || r.kind == OpKind::SyncDir
+                        || (matches!(r.kind, OpKind::Create | OpKind::Write | OpKind::Terminate)
+                            && s.paths[r.path as usize].to_string_lossy().ends_with(".del"))
                 })
                 .map(|r| r.seq)
                 .collect()
         });
+        let windows: Vec<(u64, u64)> = self.commit_events.iter().map(|c| (c.start_seq, c.end_seq)).collect();
+        let recon = self.dir.with(|s| {
+            s.log
+                .iter()
+                .filter(|r| r.kind == OpKind::Create && s.paths[r.path as usize].to_string_lossy().ends_with(".del"))
+                .filter(|r| s.tasks[r.task as usize].starts_with("segment_updater"))
+                .filter(|r| !windows.iter().any(|(a, b)| r.seq >= *a && r.seq < *b))
+                .count() as u64
+        });
+        if recon > 0 {
+            self.out.probe_n("end_merge_reconciliation_taken", recon);
+        }
         self.out.log_hash = hash;
         self.out.spawn_count = tantivy::verif_sim::with_knobs(|k| k.spawn_count);
         self.out.storage_ops = ops;
